@@ -239,6 +239,18 @@ def _run_case(spec):
                   (f'Lie_beta:s_dd:w={w0:.4g}', lambda r: r.Lie_beta(F['T'].copy(), 's_dd', weight=w0)),
                   ('s_covd:u', lambda r: r.s_covd(F['V'].copy(), 'u')),
                   ('s_div:dd', lambda r: r.s_div(F['T'].copy(), 'dd'))]
+        # the curl after the determinant of the 4-metric was asked on its own
+        # (its 3+1 shortcut is then what the Levi-Civita tensor is built from)
+        if 's_curl:dd' in exd and gi >= 0:
+            _, rel4 = c04.evaluate(spec, g, [])
+            try:
+                with common.Quiet():
+                    rel4['gdet']
+                    code['s_curl:dd#after-gdet'] = np.array(rel4.s_curl(F['Ts'].copy(), 'dd'), copy=True)
+            except Exception as e:
+                code['s_curl:dd#after-gdet'] = e
+            exd['s_curl:dd#after-gdet'] = exd['s_curl:dd']
+            del rel4
         for lab, fn in firsts:
             # (component inputs: that is where nothing is assembled beforehand)
             if lab not in exd or not spec.get('components'):
